@@ -33,6 +33,18 @@ fn main() {
         "run" if args.len() >= 4 => std::process::exit(parent(&args[2], &args[3])),
         "worker" if args.len() >= 4 => std::process::exit(worker(&args[2], &args[3])),
         "replay" if args.len() >= 3 => std::process::exit(replay(&args[2])),
+        "aux" if args.len() >= 4 => {
+            install_panic_hook();
+            let ctx = ctx_for(&args[2].to_uppercase(), &args[3]);
+            set_deadline(Duration::from_secs(90 * 60));
+            match props::aux(&ctx, &args[2]) {
+                Some(v) => {
+                    println!("{}", v);
+                    std::process::exit(0)
+                }
+                None => usage(),
+            }
+        }
         "selftest" => std::process::exit(props::selftest::run(&repo_dir())),
         _ => usage(),
     }
